@@ -163,10 +163,43 @@ def enforce_no_pitch_overlap(asc, rng, mode=None):
         p["tuplets"] = [s for s in p["tuplets"] if s["start"] in ids and s["end"] in ids]
 
 
+def tiny_many(k):
+    """a boundary score: as many parts (or voices of one part) as there are MIDI channels to give them"""
+    n = k.choice((9, 10, 12, 15))
+    by_voice = k.random() < 0.5
+    L = 8
+
+    def part(pid, voices, base):
+        notes = []
+        for vi, v in enumerate(voices):
+            for m in range(2):
+                notes.append({"id": "%sn%d" % (pid.lower(), len(notes) + 1), "kind": "note", "t": m * L + (vi % 2) * 2, "e": m * L + (vi % 2) * 2 + 2, "voice": v, "staff": 1, "sym": {"type": "quarter", "dots": 0}, "m": m, "g": None, "step": "CDEFGAB"[(base + vi) % 7], "alter": None, "octave": 2 + (base + vi) // 7})
+        return {
+            "id": pid, "name": pid, "abbr": None, "qdivs": [[0, 2]], "nstaves": 1, "end": 2 * L,
+            "measures": [{"s": m * L, "e": (m + 1) * L, "number": m + 1, "name": str(m + 1)} for m in range(2)],
+            "timesigs": [{"t": 0, "beats": 4, "beat_type": 4}], "keysigs": [{"t": 0, "fifths": 0, "mode": "major"}],
+            "clefs": [{"t": 0, "staff": 1, "sign": "G", "line": 2, "oct": 0}],
+            "notes": notes, "slurs": [], "tuplets": [], "dirs": [], "tempos": [], "repeats": [], "endings": [], "nav": [], "fermatas": [],
+        }
+
+    if by_voice:
+        parts = [part("P1", list(range(1, n + 1)), 0)]
+    else:
+        parts = [part("P%d" % (i + 1), [1], i) for i in range(n)]
+    return {"id": None, "parts": parts, "groups": None}
+
+
 def generate(seed, tier, cfg):
     st = R.Streams(seed)
     k = st.knobs
     asc = gen.gen_score(st.workload, profile="midi", size=gen.pick_size(tier, st.knobs))
+    if k.random() < 0.04:
+        asc = tiny_many(k)
+    if k.random() < 0.08 and len(asc["parts"]) > 1:
+        # nothing makes part ids unique: parts built by hand often all have the default id
+        same = k.choice(("", "P", None))
+        for p in asc["parts"]:
+            p["id"] = same
     mode = k.randrange(0, 6)
     per_cell = k.random() < 0.5
     enforce_no_pitch_overlap(asc, st.workload, mode if per_cell else None)
